@@ -469,14 +469,15 @@ fn rowset_dirs(p: &std::path::Path) -> Vec<String> {
 /// one block of one of its column files corrupted; sequences
 ///   A: open, compaction pass, compaction pass, SELECT, fresh reopen, SELECT
 ///   B: open, SELECT (first read), compaction pass, SELECT, fresh reopen, SELECT
-fn compact(work: &str, n_cases: usize) {
-    let mut r = Rng::from_env();
+fn compact_table(work: &str, n_cases: usize, keyed: bool, r: &mut Rng) {
     let base = std::path::Path::new(work).join("c18c-base");
     let _ = std::fs::remove_dir_all(&base);
     let (want_t, want_u) = {
         let rt = runtime();
         let db = rt.block_on(Database::verif_new_on_disk_nobg(options(&base))).unwrap();
-        run_sql(&rt, &db, "create table t (a int, b varchar)");
+        // keyed: the sorted scan of a table with a PRIMARY KEY and the compactor of such a table go
+        // through MergeIterator (one child iterator per row-set) instead of the concat path
+        run_sql(&rt, &db, if keyed { "create table t (a int primary key, b varchar)" } else { "create table t (a int, b varchar)" });
         for part in 0..2 {
             let vals: Vec<String> = (0..20).map(|i| format!("({}, '{}')", part * 1000 + i * 7 + 1, ["x", "yy", "zzz", ""][i % 4])).collect();
             run_sql(&rt, &db, &format!("insert into t values {}", vals.join(", ")));
@@ -485,6 +486,9 @@ fn compact(work: &str, n_cases: usize) {
         run_sql(&rt, &db, "insert into u values (10), (20), (30)");
         (run_sql(&rt, &db, "select a, b from t order by a"), run_sql(&rt, &db, "select k from u"))
     };
+    if let Outcome::Ok(rows) = &want_t {
+        println!("{{\"compact_want\":\"{}\",\"keyed\":{}}}", render_rows(rows.clone(), false), keyed);
+    }
     let dirs = rowset_dirs(&base);
     let mut files: Vec<(String, Vec<u8>)> = vec![];
     for d in &dirs {
@@ -496,7 +500,7 @@ fn compact(work: &str, n_cases: usize) {
         }
     }
     files.sort();
-    println!("{{\"compact_base\":{{\"rowset_dirs\":{:?},\"col_files\":{}}}}}", dirs, files.len());
+    println!("{{\"compact_base\":{{\"keyed\":{},\"rowset_dirs\":{:?},\"col_files\":{}}}}}", keyed, dirs, files.len());
     let scratch = std::path::Path::new(work).join("c18c-case");
     for case in 0..n_cases {
         let (name, bytes) = &files[case % files.len()];
@@ -504,7 +508,9 @@ fn compact(work: &str, n_cases: usize) {
         let ib = std::fs::read(base.join(&idxname)).unwrap();
         let entries: Vec<(usize, usize)> = hk::VerifColumn::open(vec![], &ib, DataType::Int32, None, true).unwrap()
             .index_entries().iter().map(|e| (e.offset as usize, e.length as usize)).collect();
-        let b = r.below(entries.len() as u64) as usize;
+        // keyed table: mostly a NON-first block (the first block of a column is verified when the
+        // row-set iterator is created, later blocks while the merge is under way)
+        let b = if keyed && entries.len() > 1 && r.chance(3, 4) { 1 + r.below(entries.len() as u64 - 1) as usize } else { r.below(entries.len() as u64) as usize };
         let (off, len) = entries[b];
         // payload positions mostly, sometimes the trailer
         let patch = match r.below(8) {
@@ -549,10 +555,17 @@ fn compact(work: &str, n_cases: usize) {
             }
         }
         let ents: Vec<String> = entries.iter().map(|(o, l)| format!("{o},{l}")).collect();
-        println!("{{\"file\":\"{}\",\"patch\":\"{}\",\"seq\":\"{}\",\"changed\":{},\"block\":{},\"hex\":\"{}\",\"entries\":\"{}\",\"res\":\"{}\"}}", name, patch, seq, changed, b, hex(bytes), ents.join(";"), res.join(" "));
+        println!("{{\"file\":\"{}\",\"keyed\":{},\"patch\":\"{}\",\"seq\":\"{}\",\"changed\":{},\"block\":{},\"nblocks\":{},\"hex\":\"{}\",\"entries\":\"{}\",\"res\":\"{}\"}}", name, keyed, patch, seq, changed, b, entries.len(), hex(bytes), ents.join(";"), res.join(" "));
     }
     let _ = std::fs::remove_dir_all(&scratch);
     let _ = std::fs::remove_dir_all(&base);
+}
+
+/// key-less table: concat scan path; keyed table: MergeIterator (sorted scan and compaction)
+fn compact(work: &str, n_cases: usize) {
+    let mut r = Rng::from_env();
+    compact_table(work, n_cases - n_cases / 2, false, &mut r);
+    compact_table(work, n_cases / 2, true, &mut r);
 }
 
 fn main() {
